@@ -107,6 +107,8 @@ class Pair:
         self.pstate = {}        # model thread -> (nr_buf, curr, losts)
         self.ended = set()
         self.sid = None
+        self.sess = {}          # model thread -> [(index of its session's buffer 0 in the model's numbering, session id)]
+        self.hth = {}           # model thread -> thread number in the harness (after FORK the child is thread 0 there)
         out = self.P(["BASE"])
         self.base = int(out[0].split()[1])
 
@@ -128,18 +130,51 @@ class Pair:
 
     def on_thread(self, t, lines):
         pre = []
-        if self.cur != t:
-            pre = ["T %d" % t]
-            self.cur = t
+        ht = self.hth.get(t, t)
+        if self.cur != ht:
+            pre = ["T %d" % ht]
+            self.cur = ht
         out = self.P(pre + lines)
         return out[len(pre):]
 
     def refresh(self, t):
         out = self.on_thread(t, ["PSTATE"] + ([] if t in self.tids else ["TID"]))
         k = out[0].split()
-        self.pstate[t] = (int(k[1]), int(k[2]), int(k[3]))
+        if t not in self.sess:
+            self.sess[t] = [(0, self.newest_session())]
+        rb = self.sess[t][-1][0]
+        self.pstate[t] = (rb + int(k[1]), rb + int(k[2]) if int(k[2]) >= 0 else -1, int(k[3]))
         if t not in self.tids:
             self.tids[t] = int(out[1].split()[1])
+
+    def fork(self, p, ch):
+        """FORK: the harness forks, the child goes on with the script as its thread 0, the parent waits"""
+        out = self.P(["FORK"])
+        if "FORK child" not in out:
+            raise RuntimeError("FORK failed: %r" % (out,))
+        self.cur = 0
+        self.hth[ch] = 0
+        self.sess[ch] = [(0, self.sess[p][-1][1])]
+        self.refresh(ch)
+
+    def exec_image(self, t):
+        """EXEC: same tid, new image, new libmcount session (known once the new image has answered)"""
+        old_nb = self.pstate[t][0]
+        known = set(self.sessions())
+        self.pro.stdin.write("EXEC\n")
+        self.pro.stdin.flush()
+        l = self.pro.stdout.readline()
+        if l.strip() != "EXEC":
+            raise RuntimeError("EXEC failed: %r %s" % (l, self.pro.stderr.read()[-500:]))
+        self.cur = 0
+        self.hth[t] = 0
+        out = self.P(["BASE"])
+        if int(out[0].split()[1]) != self.base:
+            raise RuntimeError("harness base address changed over exec (build it -no-pie)")
+        new = [x for x in self.sessions() if x not in known]
+        if len(new) != 1:
+            raise RuntimeError("expected one new session after exec, got %r" % (new,))
+        self.sess[t].append((old_nb, new[0]))
 
     def quit_producer(self):
         if self.pro_alive:
@@ -160,30 +195,42 @@ class Pair:
             raise RuntimeError("c03_recorder died: rc=%s %s" % (self.rec.poll(), self.rec.stderr.read()[-800:]))
         return l.strip()
 
-    def session(self):
-        if self.sid is None:
-            for f in os.listdir(self.d):
-                if f.startswith("sid-"):
-                    self.sid = f[4:20]
-        return self.sid
+    def sessions(self):
+        """session ids in the order in which libmcount created them (one per image: exec starts a new one)"""
+        fs = [f for f in os.listdir(self.d) if f.startswith("sid-") and f.endswith(".map")]
+        fs.sort(key=lambda f: os.stat(os.path.join(self.d, f)).st_mtime_ns)
+        return [f[4:20] for f in fs]
 
-    def shm_header(self, tid, idx):
+    def newest_session(self):
+        l = self.sessions()
+        return l[-1] if l else None
+
+    def session(self):
+        l = self.sessions()
+        return l[0] if l else None
+
+    def shm_name(self, t, idx):
+        """model buffer (t, idx) -> shm object (the sessions of a task are numbered on)"""
+        rb, sid = [x for x in self.sess[t] if x[0] <= idx][-1]
+        return "/dev/shm/uftrace-%s-%d-%03d" % (sid, self.tids[t], idx - rb)
+
+    def shm_header(self, t, idx):
         try:
-            with open("/dev/shm/uftrace-%s-%d-%03d" % (self.session(), tid, idx), "rb") as f:
+            with open(self.shm_name(t, idx), "rb") as f:
                 size, flag = struct.unpack("<II", f.read(8))
             return flag, size
         except (OSError, struct.error):
             return (0xffff, 0xffff)
 
-    def shm_data(self, tid, idx, a, b):
-        with open("/dev/shm/uftrace-%s-%d-%03d" % (self.session(), tid, idx), "rb") as f:
+    def shm_data(self, t, idx, a, b):
+        with open(self.shm_name(t, idx), "rb") as f:
             f.seek(16 + a)
             return f.read(b - a)
 
     def sizes(self, t):
         if t not in self.tids:
             return {}
-        return {i: self.shm_header(self.tids[t], i)[1] for i in range(self.pstate[t][0])}
+        return {i: self.shm_header(t, i)[1] for i in range(self.pstate[t][0])}
 
     def hook(self, t, line, log):
         """one hook call of thread t; appends to `log` what the thread was seen to put into its buffers:
@@ -197,7 +244,7 @@ class Pair:
         for i, sz in post.items():
             a = pre.get(i, 0)
             if sz > a:
-                chunks.append((i, self.shm_data(self.tids[t], i, a, sz)))
+                chunks.append((i, self.shm_data(t, i, a, sz)))
 
         def split(data):
             """whole records of a chunk (a record with the `more` bit carries the saved arguments of its function)"""
@@ -239,8 +286,11 @@ class Pair:
         rev = {v: k for k, v in self.tids.items()}
 
         def enc_id(s):
-            tid, idx = s.split(":")
-            return rev.get(int(tid), 777) * 1000 + int(idx)
+            sid, rest = s.split(".")
+            tid, idx = rest.split(":")
+            t = rev.get(int(tid), 777)
+            rb = [x[0] for x in self.sess.get(t, []) if x[1] == sid]
+            return t * 1000 + (rb[0] if rb else 500) + int(idx)
 
         def ids(s):
             l = [x for x in s.split(",") if x]
@@ -255,7 +305,7 @@ class Pair:
                 nb, cur, lo = self.pstate[t]
                 out += [nb, cur + 1, lo]
                 for i in range(nb):
-                    fl, sz = self.shm_header(self.tids[t], i)
+                    fl, sz = self.shm_header(t, i)
                     out += [fl, sz]
         out.append(4242)
         snap = self.R("SNAP")
@@ -296,8 +346,8 @@ class Pair:
                     s.close()
                 except Exception:
                     pass
-        if self.session():
-            for f in glob.glob("/dev/shm/uftrace-%s-*" % self.sid):
+        for sid in self.sessions():
+            for f in glob.glob("/dev/shm/uftrace-%s-*" % sid):
                 try:
                     os.unlink(f)
                 except OSError:
@@ -310,6 +360,10 @@ def coq_op(o):
     k = o[0]
     if k == "E":
         return "OpE %d %d%%N %d%%N [%s]%%N" % (o[1], o[2], o[3], "; ".join("%d" % b for b in payload(o)))
+    if k == "XE":
+        return "OpExecE %d %d%%N %d%%N [%s]%%N" % (o[1], o[2], o[3], "; ".join("%d" % b for b in payload(o)))
+    if k == "FORK":
+        return "OpFork %d %d" % (o[1], o[2])
     if k == "X":
         return "OpX %d %d%%N [%s]%%N" % (o[1], o[2], "; ".join("%d" % x for x in ret_payload(o)))
     if k == "END":
@@ -347,6 +401,11 @@ def run_step(ctx, exes, case, n):
             k = o[0]
             if k == "E":
                 pr.hook(o[1], e_line(o), logs[o[1]])
+            elif k == "XE":
+                pr.exec_image(o[1])
+                pr.hook(o[1], e_line(o), logs[o[1]])
+            elif k == "FORK":
+                pr.fork(o[1], o[2])
             elif k == "X":
                 pr.hook(o[1], x_line(o), logs[o[1]])
             elif k == "END":
@@ -692,6 +751,52 @@ def gen_stall(rng, big=False):
             "args": None, "tags": ["per-buffer=%d" % per, "stalled-writer"]}
 
 
+def gen_forkexec(rng, directed=None):
+    """fork and exec at the protocol level: the child of a fork is known to the recorder under (parent pid, child
+    tid); when a task execs, the new image's TASK_START must make the recorder queue the old image's buffer
+    (flush_old_shmem) before any buffer of the new session"""
+    fork = True if directed else rng.random() < 0.7
+    per = 2 if directed else rng.choice([1, 2, 3])
+    nw = 1 if directed else rng.choice([1, 2])
+    g = Gen(rng, 2 if fork else 1)
+    t = 0
+    g.leaf(0)
+    if rng.random() < 0.5 or directed:
+        g.enter(0)                      # an open call is inherited by the child (marked written there)
+
+    def rec_ops(n):
+        for _ in range(n):
+            x = rng.random()
+            g.ops.append(("M",) if x < 0.45 else ("W", rng.randrange(nw)) if x < 0.9 else ("DRAIN",))
+    if not directed:
+        rec_ops(rng.randrange(0, 4))
+    if fork:
+        g.ops.append(("FORK", 0, 1))
+        g.depth[1] = g.depth[0]
+        g.stack[1] = list(g.stack[0])
+        t = 1
+    for _ in range(1 if directed else rng.randrange(1, 4)):
+        g.leaf(t)
+    for n in range(1 if directed else rng.choice([1, 1, 2])):
+        if not directed:
+            rec_ops(rng.randrange(0, 5))
+        k = rng.randrange(8)
+        g.ops.append(("XE", t, k, g.tick()))
+        g.depth[t] = 1
+        g.stack[t] = [k]
+        g.leave(t)
+        for _ in range(3 if directed else rng.randrange(1, 3 + 2 * per)):
+            g.prod_step(t)              # the new image fills at least one buffer
+        if directed:
+            g.ops += [("DRAIN",)] + [("W", 0)] * 4
+            g.leaf(t)
+    if not directed:
+        rec_ops(rng.randrange(0, 6))
+    ops = g.finish(flush_w=0 if directed else rng.randrange(0, 3), nw=nw)
+    return {"bufsize": 16 + 16 * per, "nw": nw, "nt": 2 if fork else 1, "ops": ops, "kind": "fork-exec",
+            "args": None, "tags": ["per-buffer=%d" % per, "exec", "fork+exec" if fork else "exec-of-the-first-process"]}
+
+
 def tail_loss_case(rng):
     """allocation refused on the LAST request: the dropped records are never reported (witness of the
     refuted theorem C03_lost_tail_unreported_refuted)"""
@@ -828,7 +933,7 @@ def build_harnesses(ctx):
     build.cc([os.path.join(VERIF, "harness/c/c03_recorder.c"), build.uf_archive(objdir)], exes["rec"], objdir,
              extra=build.UF_LIBS)
     build.cc([os.path.join(VERIF, "harness/c/mc_harness.c")] + build.libmcount_objs(objdir, ""), exes["pro"], objdir,
-             extra=build.LINK_LIBS + ["-DLIBMCOUNT"])
+             extra=build.LINK_LIBS + ["-DLIBMCOUNT", "-no-pie"])
     return exes
 
 
@@ -923,6 +1028,43 @@ def e2e_program(nthreads, iters, nested):
     return "\n".join(src) + "\n", expected
 
 
+def e2e_forkexec_program(pre, post):
+    """parent: pw(); fork(); wait.  child: `pre` calls of cb(), then exec of the same binary (same tid, new
+    libmcount session) which makes `post` calls of ca() - more than one trace buffer.  The child's <tid>.dat
+    must be [pre-exec records][post-exec records] in that order (flush_old_shmem at the TASK_START of the new image)"""
+    src = """#include <string.h>
+#include <sys/wait.h>
+#include <unistd.h>
+#define LEAF(n) __attribute__((noinline)) void n(void) { asm volatile("" ::: "memory"); }
+LEAF(pw) LEAF(cb) LEAF(ca) LEAF(cz)
+int main(int argc, char **argv)
+{
+	if (argc > 1 && !strcmp(argv[1], "child")) {
+		for (int i = 0; i < %d; i++) ca();
+		cz();
+		return 0;
+	}
+	pw();
+	pid_t pid = fork();
+	if (pid == 0) {
+		for (int i = 0; i < %d; i++) cb();
+		execl(argv[0], argv[0], "child", (char *)0);
+		_exit(9);
+	}
+	int st; waitpid(pid, &st, 0);
+	pw();
+	return 0;
+}
+""" % (post, pre)
+    expected = {
+        "main": [(0, 0, "main"), (0, 1, "pw"), (1, 1, "pw"), (0, 1, "pw"), (1, 1, "pw"), (1, 0, "main")],
+        # the forked child inherits main's frame (ENTRY already written by the parent) and never returns from it
+        "cb": [(0, 1, "cb"), (1, 1, "cb")] * pre + [(0, 0, "main")] + [(0, 1, "ca"), (1, 1, "ca")] * post
+              + [(0, 1, "cz"), (1, 1, "cz"), (1, 0, "main")],
+    }
+    return src, expected
+
+
 def e2e_decode(d, exe):
     """independent decoder: {tid: (records, whole)}; a record is (type, depth, name) or ("L", n)"""
     from vf.core import sh
@@ -1014,11 +1156,17 @@ def e2e(ctx, objdir):
         ctx.broken("c03_shmfail.c does not compile", e[-500:])
         return
     nlost_runs = 0
-    for pi in range(ctx.n(5, 24)):
-        lossy = pi % 2 == 1
+    nfx = ctx.n(2, 6)
+    for pi in range(ctx.n(5, 24) + nfx):
+        forkexec = pi < nfx
+        lossy = (not forkexec) and pi % 2 == 1
         nth = rng.choice([1, 2, 3, 4])
         iters = [rng.choice([300, 900, 2000]) for _ in range(nth + 1)]
-        src, expected = e2e_program(nth, iters, nested=not lossy)
+        if forkexec:
+            nth = 1
+            src, expected = e2e_forkexec_program(rng.choice([1, 3, 40]), rng.choice([300, 700, 2000]))
+        else:
+            src, expected = e2e_program(nth, iters, nested=not lossy)
         cfile = os.path.join(work, "p%d.c" % pi)
         exe = os.path.join(work, "p%d" % pi)
         open(cfile, "w").write(src)
@@ -1032,7 +1180,7 @@ def e2e(ctx, objdir):
         if lossy:
             frm = 2 * (nth + 1) + rng.choice([0, 1, 3])
             env = {"LD_PRELOAD": lib, "C03_SHMFAIL_FROM": str(frm), "C03_SHMFAIL_TO": str(frm + rng.choice([2, 8, 40, 100000]))}
-        bsz = rng.choice(["4k", "4k", "4k", "8k", "64k"])
+        bsz = "4k" if forkexec else rng.choice(["4k", "4k", "4k", "8k", "64k"])
         rc, o, e = sh(["timeout", "60", uft, "record", "--no-pager", "--no-event", "--no-libcall", "-b", bsz,
                        "--num-thread", str(nw), "--libmcount-path=" + objdir, "-d", dd, exe], timeout=90, env=env)
         rep = {"mode": "e2e", "program": src, "writers": nw, "buffer": bsz, "env": env, "stderr": e[-600:]}
@@ -1045,6 +1193,8 @@ def e2e(ctx, objdir):
             if "LOST" in line and "records" in line:
                 warned += int(line.split("LOST")[1].split()[0])
         tags = ["e2e", "e2e:threads=%d" % (nth + 1), "e2e:writers=%d" % nw, "e2e:-b" + bsz, "e2e:lossy" if lossy else "e2e:lossless"]
+        if forkexec:
+            tags.append("e2e:fork+exec(same tid, two sessions)")
         ok = len(got) == len(expected)
         why = "" if ok else "%d data files for %d threads" % (len(got), len(expected))
         total_markers = 0
@@ -1086,12 +1236,14 @@ def run(ctx):
     rng = ctx.rng
     cases = []
     cases += directed(rng)
-    cases += [stall_directed(rng, 1), stall_directed(rng, 2)]
+    cases += [stall_directed(rng, 1), stall_directed(rng, 2), gen_forkexec(rng, directed=True)]
+    for _ in range(ctx.n(3, 24)):
+        cases.append(gen_forkexec(rng))
     for _ in range(ctx.n(4, 24)):
         cases.append(gen_stall(rng))
     tl = tail_loss_case(rng)
     cases.append(tl)
-    for _ in range(ctx.n(24, 140)):
+    for _ in range(ctx.n(20, 130)):
         cases.append(gen_random(rng, big=ctx.thorough()))
     for _ in range(ctx.n(10, 50)):
         cases.append(gen_soak(rng, big=ctx.thorough()))
